@@ -323,7 +323,13 @@ func WellFormed(w World, allowRepeatPositional bool) bool {
 				return false
 			}
 		case OpConvert:
-			if o.Type < 0 || o.Type >= NumTypesAll {
+			if o.Type == -1 {
+				// convert to the marker struct type that declares party Target's parameters
+				if o.Target < 0 || o.Target >= len(w.Parties) || len(w.Parties[o.Target].In) == 0 ||
+					(w.Parties[o.Target].InForm != FormStruct && w.Parties[o.Target].InForm != FormPtrStruct) {
+					return false
+				}
+			} else if o.Type < 0 || o.Type >= NumTypesAll {
 				return false
 			}
 		case OpCallRedef:
